@@ -21,6 +21,7 @@ TRANSPARENT = [
     r"^<.* as core::convert::From<.*>>::from$",
     r"^protobuf::repeated::RepeatedField::from_vec$",
     r"^protobuf::repeated::RepeatedField::into_vec$",
+    r"^core::mem::take$",     # value-wise `mem::take(&mut x)` reads x (the reset it leaves behind is an effect of the call)
 ]
 TRANSPARENT_RE = [re.compile(x) for x in TRANSPARENT]
 SCALAR_RE = re.compile(r"^(?:[ui](?:8|16|32|64|128|size)|bool|char|f32|f64|\(\))$")
